@@ -305,6 +305,17 @@ theorem C09_fact_clean_when_truncated : Facts.parse_clean_when_truncated = some 
 theorem C09_fact_limits : Facts.defs_InputLogMaxMessageBytes = some 1048576 ∧
     Facts.defs_InputLogMaxRecordBytes = some 1048832 := by decide
 
+/-! ### translated arithmetic (Tie B, semantic form) -/
+
+theorem C09_fact_pri_found : Facts.gen_pri_facility_found = true ∧ Facts.gen_pri_severity_found = true ∧
+    Facts.gen_facility_rejected_found = true := by decide
+/-- facility and severity as the code computes them (`>> 3`, `& 0b111`, translated from the source) are the model's `/ 8` and
+`% 8`, for every integer `strconv.Atoi` can return -/
+theorem C09_gen_pri_arith (p : Int) : Facts.gen_pri_facility p = p / 8 ∧ Facts.gen_pri_severity p = p % 8 := ⟨rfl, rfl⟩
+/-- the facility range check of the code is the model's -/
+theorem C09_gen_facility_rejected (f : Int) (n : Nat) :
+    Facts.gen_facility_rejected f n = (decide (f < 0) || decide (f ≥ (n : Int))) := rfl
+
 /-! ### non-vacuity -/
 
 def sampleCfg : Cfg :=
